@@ -70,3 +70,149 @@ def direct_or_wrapped_calls(ctx, f, is_target_call, depth=2):
                 if ok:
                     out.append(c.block)
     return out
+
+
+# --------------------------------------------------------------------------- wiring helpers
+
+def _has(ctx, pv, item):
+    kind = item[0]
+    if kind == "field":
+        return pv.has_field(item[1], item[2])
+    if kind == "call":
+        return pv.has_call(ctx.prog, item[1])
+    if kind == "const":
+        return pv.has_const(item[1])
+    if kind == "param":
+        return item[1] in pv.params
+    if kind == "op":
+        return any(o.replace("WithOverflow", "") == item[1] for o in pv.ops)
+    if kind == "int":
+        return item[1] in pv.ints
+    if kind == "variant":
+        return any(v == item[2] and (a == item[1] or a.endswith("::" + item[1])) for (a, v) in pv.variants)
+    raise KeyError(kind)
+
+
+def _item_str(item):
+    if item[0] == "call":
+        sp = item[1]
+        return "call:" + (sp.get("name") if isinstance(sp, dict) and isinstance(sp.get("name"), str) else str(sp))
+    return ":".join(str(x) for x in item)
+
+
+def wiring(ctx, rule, construct, pv, must=(), must_not=(), loc=None, what=""):
+    """must-include items are enforced; must-exclude items only when the slice stayed exact."""
+    missing = [_item_str(i) for i in must if not _has(ctx, pv, i)]
+    present = [_item_str(i) for i in must_not if _has(ctx, pv, i)]
+    exp = "%s derives from [%s]" % (what or construct, ", ".join(_item_str(i) for i in must))
+    if must_not:
+        exp += " and not from [%s]" % ", ".join(_item_str(i) for i in must_not)
+    if missing:
+        return ctx.inst(rule, construct, False, exp, "missing: %s; slice=%s" % (missing, A._pvs(pv)), loc)
+    if present:
+        if pv.exact:
+            return ctx.inst(rule, construct, False, exp, "unexpected source: %s; slice=%s" % (present, A._pvs(pv)), loc)
+        return ctx.inst(rule, construct, None, exp, "unexpected source %s but slice inexact" % present, loc)
+    return ctx.inst(rule, construct, True, exp, "ok", loc)
+
+
+def field_idx(prog, adt_key, name, variant=0):
+    a = prog.adts[adt_key]
+    for i, f in enumerate(a["variants"][variant]["fields"]):
+        if f["name"] == name:
+            return i
+    raise KeyError("%s.%s" % (adt_key, name))
+
+
+def adt_key(prog, suffix):
+    ks = [k for k in prog.adts if k == suffix or k.endswith("::" + suffix)]
+    if len(ks) != 1:
+        raise LookupError("adt %s: %d" % (suffix, len(ks)))
+    return ks[0]
+
+
+def field_stores(ctx, f, owner, name):
+    """[(block, stmt, prov of stored value)] for assignments whose destination's last field is (owner, name)"""
+    out = []
+    for bi, bb in enumerate(f.blocks):
+        for s in bb["s"]:
+            if "d" not in s:
+                continue
+            fs = [e for e in s["d"].get("p", []) if isinstance(e, dict) and "f" in e]
+            if fs and fs[-1]["o"] == owner and fs[-1]["n"] == name:
+                pv = A.Prov()
+                ctx.slicer._rvalue(f, s["v"], pv, 0, set(), (), bi)
+                out.append((bi, s, pv))
+        t = bb["t"]
+        if t["k"] == "call":
+            fs = [e for e in t["dest"].get("p", []) if isinstance(e, dict) and "f" in e]
+            if fs and fs[-1]["o"] == owner and fs[-1]["n"] == name:
+                pv = A.Prov()
+                ctx.slicer._call(f, t, pv, 0, set(), (), bi)
+                out.append((bi, t, pv))
+    return out
+
+
+def agg_fields(ctx, f, adt, field):
+    """[(block, prov)] of the operand building `field` in aggregates of `adt` constructed in f"""
+    out = []
+    for bi, bb in enumerate(f.blocks):
+        for s in bb["s"]:
+            v = s.get("v")
+            if v and v["r"] == "agg" and v.get("ak") == "adt" and (v["adt"] == adt or v["adt"].endswith("::" + adt)):
+                if field in v["fields"]:
+                    o = v["a"][v["fields"].index(field)]
+                    out.append((bi, ctx.slicer.operand(f, o, at=bi)))
+    return out
+
+
+def writers_of(prog, owner, field, crates=("marginfi", "marginfi_type_crate")):
+    """functions (keys) that directly write (owner, field)"""
+    out = []
+    for k, f in prog.fns.items():
+        if f.info["crate"] not in crates:
+            continue
+        w = prog.writes_direct(k)
+        if (owner, field) in w:
+            kinds = {kind for (_, _, kind) in w[(owner, field)]}
+            out.append((k, kinds))
+    return out
+
+
+def defining_call(f, o, hops=0):
+    """Walk back from operand o through moves and pass-through adaptors (`?`, into, ok_or_else, unwrap ...)
+    to the call terminator that produced the value.  Returns (block, terminator) or None."""
+    if hops > 12:
+        return None
+    p = op_place(o)
+    if p is None:
+        return None
+    d = A.single_def(f, p["l"])
+    if d is None:
+        return None
+    bi, si = d
+    if si == "T":
+        t = f.blocks[bi]["t"]
+        ci = f.dinfo(t["res"]) if t.get("res") is not None else (f.dinfo(t["raw"]) if "raw" in t else None)
+        nm = ci["name"] if ci else ""
+        if (nm in A.SAME_PATH_CALLS or nm in A.UNWRAP_CALLS) and t["args"]:
+            return defining_call(f, t["args"][0], hops + 1)
+        return (bi, t)
+    s = f.blocks[bi]["s"][si]
+    v = s["v"]
+    if v["r"] in ("use", "cast") or (v["r"] == "ref"):
+        if v["r"] == "ref":
+            return defining_call(f, {"c": v["pl"]}, hops + 1)
+        return defining_call(f, v["a"][0], hops + 1)
+    return None
+
+
+def agg_operand(f, adt, field):
+    """[(block, operand)] operands building `field` in aggregates of `adt` in f"""
+    out = []
+    for bi, bb in enumerate(f.blocks):
+        for s in bb["s"]:
+            v = s.get("v")
+            if v and v["r"] == "agg" and v.get("ak") == "adt" and (v["adt"] == adt or v["adt"].endswith("::" + adt)) and field in v["fields"]:
+                out.append((bi, v["a"][v["fields"].index(field)]))
+    return out
